@@ -212,8 +212,12 @@ private:
     {
         byte_vector_t row( this->_info._width * (this->_info._bits_per_pixel / 8) );
 
-        // jump to first scanline
-        this->_io_dev.seek( static_cast< long >( this->_info._offset ));
+        // jump to the first scanline of the requested region: scanlines are stored bottom-up
+        // unless the screen origin bit is set, and the loop below fills the view bottom-up
+        std::ptrdiff_t const first_row = this->_info._screen_origin_bit
+            ? this->_settings._top_left.y
+            : this->_info._height - this->_settings._top_left.y - this->_settings._dim.y;
+        this->_io_dev.seek( static_cast< long >( this->_info._offset + first_row * row.size() ));
 
         View_Src v = interleaved_view( this->_info._width,
                                        1,
